@@ -243,6 +243,36 @@ def _targeted_worker(args):
     return acc.result()
 
 
+ZONES = ('America/New_York', 'Asia/Kolkata', 'Pacific/Chatham', 'Europe/London')
+
+
+def _zone_worker(args):
+    """The process time zone is part of the configuration the property quantifies over ("for all accepted inputs"
+    holds in every process): every corpus seed of every class is re-checked with TZ set to a zone west of UTC, one
+    with a half-hour offset, one with a 45-minute offset and DST, and one that equals UTC only in winter."""
+    import os
+    import time
+    zone, part, parts = args
+    acc = core.Acc()
+    os.environ['TZ'] = zone
+    time.tzset()
+    k = 0
+    for cls in classes.parse_entry_classes():
+        qn = classes.qualname(cls)
+        for seed in c02.seeds_of(qn):
+            k += 1
+            if k % parts != part:
+                continue
+            sub = core.Acc()
+            check_input(sub, cls, qn, seed, ('seed',))
+            acc.counters['transitions'] = acc.counters.get('transitions', 0) + sub.counters.get('transitions', 0)
+            for sig, v in sub.violations.items():
+                w = dict(v['witness'], zone=zone)
+                acc.violation('tz:%s' % sig, 'under TZ=%s: %s' % (zone, v.get('what', '')), w)
+            acc.state(core.h64('tz', zone, qn, seed))
+    return acc.result()
+
+
 def run(ctx):
     thorough = not ctx.quick
     items = []
@@ -263,6 +293,7 @@ def run(ctx):
         for i in range(len(so.get(cls, []))):
             citems.append((classes.qualname(cls), i))
     ctx.pmap(_composed_worker, citems)
+    ctx.pmap(_zone_worker, [(z, p, 4) for z in (ZONES if thorough else ZONES[:3]) for p in range(4)], fresh=True)
     ctx.pmap(_targeted_worker, [('dates', 0, 1), ('txt', 0, 1), ('scsv', 0, 1), ('mysql', 0, 1)] +
              [('dnskey', p, 32) for p in range(32)])
     ctx.assumptions += ['only inputs the parser accepts are subject to the property; rejected inputs and '
@@ -272,12 +303,22 @@ def run(ctx):
                            '256 thorough), deletions, B5 insertions, short strings, token sequences, cross-class seeds, compositions of every object within one deviation of the seeds; '
                            'plus 54 date spellings x 5 classes, TXT partitions, SCSV placements (all permutations of '
                            '<=3 suites + SCSVs), all 2^16 DNSKEY flag words, MySQL words with <=2 flipped bits; '
-                           'states = distinct accepted inputs')
+                           'every corpus seed again under 3 (thorough 4) non-UTC process time zones; states = distinct accepted inputs')
 
 
 def replay(ctx, w):
     acc = core.Acc()
     cls = classes.class_by_name(w['cls'])
+    if w.get('zone'):
+        import os
+        import time
+        os.environ['TZ'] = w['zone']
+        time.tzset()
+        check_input(acc, cls, w['cls'], bytes.fromhex(w['data']['hex']), tuple(w.get('family', ())))
+        vs = list(acc.violations.values())
+        if vs:
+            vs[0]['signature'] = 'tz:' + vs[0]['signature']
+        return vs[0] if vs else None
     check_input(acc, cls, w['cls'], bytes.fromhex(w['data']['hex']), tuple(w.get('family', ())))
     vs = list(acc.violations.values())
     return vs[0] if vs else None
